@@ -220,6 +220,59 @@ def session_history(rnd, first_id, nev):
     return events, rid
 
 
+def cross_object_history(rnd, first_id):
+    """Two cstruct objects load the SAME definition text under different constants, byte orders and pointer widths, in a random
+    order, and are then used alternately: each object's types must mean what its own constants say."""
+    from dissect.cstruct import cstruct
+
+    objs = []
+    for i in range(2):
+        mode = {"endian": rnd.choice("<>"), "align": rnd.random() < 0.5, "ptr": rnd.choice([2, 4, 8])}
+        consts = {"N": rnd.randrange(0, 4), "B": rnd.randrange(1, 4)}
+        objs.append((mode, consts))
+    text_struct = "struct P { uint8 tag; uint16 w[N * 2]; uint8 *p; char c[M]; uint32 x; };"
+    events, rid = [], first_id
+    css, types = [None, None], [None, None]
+    order = [0, 1] if rnd.random() < 0.5 else [1, 0]
+    for i in order:
+        mode, consts = objs[i]
+        m = consts["N"] + consts["B"]
+        defs = f"#define N {consts['N']}\n#define B {consts['B']}\n#define M N + B\n" + text_struct
+        css[i] = codec.load(defs, mode, rnd.random() < 0.5)
+        types[i] = A.t_struct("P", [A.field("tag", A.t_int("uint8")), A.field("w", A.t_arr(A.t_int("uint16"), A.L_fixed(consts["N"] * 2))),
+                                    A.field("p", A.t_ptr(A.t_int("uint8"))), A.field("c", A.t_arr(A.t_char(), A.L_fixed(m))),
+                                    A.field("x", A.t_int("uint32"))])
+    live = {}
+    next_iid = 1
+    for _ in range(8):
+        i = rnd.randrange(2)
+        mode, consts = objs[i]
+        t, T = types[i], css[i].P
+        base = {"cs": i + 1, "type": t, "mode": mode, "consts": {"_": 0}}
+        if rnd.random() < 0.6:
+            data = codec.gen_input(rnd, 0, maxlen=60)
+            try:
+                o = T.read(io.BytesIO(data))
+                live[next_iid] = (o, t)
+                ev = dict(base, ev="Parse", iid=next_iid, input=list(data), obs={"status": "ok", "v": A.project(o, t)})
+                next_iid += 1
+            except Exception as e:  # noqa: BLE001
+                ev = dict(base, ev="Parse", iid=0, input=list(data), obs={"status": codec.classify(e), "v": codec.NONE_V})
+        else:
+            try:
+                o = T()
+                live[next_iid] = (o, t)
+                ev = dict(base, ev="Construct", iid=next_iid, args=[], kwargs=[], obs={"status": "ok", "v": A.project(o, t)})
+                next_iid += 1
+            except Exception as e:  # noqa: BLE001
+                ev = dict(base, ev="Construct", iid=0, args=[], kwargs=[], obs={"status": "error", "v": codec.NONE_V, "exc": str(e)[:100]})
+        ev["id"] = rid
+        ev["snap"] = [[iid, A.project(o, tt)] for iid, (o, tt) in sorted(live.items())]
+        events.append(ev)
+        rid += 1
+    return events, rid
+
+
 class SessionCheck:
     def __init__(self, prop):
         self.prop = prop
@@ -238,6 +291,10 @@ class SessionCheck:
         events, rid = [], 0
         for _ in range(2500 if thorough else 260):
             evs, rid = session_history(rnd, rid, 30 if thorough else 14)
+            events.append({"ev": "New", "endian": "<"})
+            events += evs
+        for _ in range(1500 if thorough else 120):
+            evs, rid = cross_object_history(rnd, rid)
             events.append({"ev": "New", "endian": "<"})
             events += evs
         judged = [e for e in events if "id" in e]
